@@ -280,6 +280,10 @@ impl Sim {
         self.st.lock().unwrap().names.insert(addr, name.into());
     }
 
+    pub fn name_object_if_unnamed(&self, addr: usize, name: String) {
+        self.lock().names.entry(addr).or_insert(name);
+    }
+
     fn lock(&self) -> MutexGuard<'_, SimState> {
         self.st.lock().unwrap_or_else(|e| e.into_inner())
     }
